@@ -21,10 +21,10 @@ POLICIES = ("first", "last", "cycle")
 def settings(tier):
     """(generator name, kwargs, promises_like_pair)"""
     out = []
-    for nt in (2, 3, 4, 6, 9):
+    for nt in (2, 3, 4, 6, 9, 18, 21):
         for op in (None, "+", "-", ["+", "-"]):
             for optional_var in (False, True):
-                for noise_terms in (None, 2):
+                for noise_terms in (None, 2, 6) if nt in (4, 9) else (None, 2):
                     promise = (op is not None) and not optional_var
                     out.append(("gen_simplify_multiple_terms",
                                 dict(num_terms=nt, op=op, optional_var=optional_var, noise_terms=noise_terms), promise))
@@ -169,6 +169,51 @@ def explore_setting(acc, gen, kwargs, promise, pretty, policy, bound, cap):
     return st
 
 
+class Stutter(CH.Oracle):
+    """a starving oracle: randint repeats its previous answer by default.  No real seed behaves like this for long,
+    so a ValueError ('unable to fulfil') is tolerated under it - but whatever IS returned must still be right."""
+
+    def randint(self, a, b):
+        key = (a, b)
+        prev = self._prev.get(key)
+        size = b - a + 1
+        menu = [a, b, (a + b) // 2] + ([prev] if prev is not None else [])
+        menu = list(dict.fromkeys(menu))
+        default = menu.index(prev) if prev is not None else 0
+        v = self._pick("randint", menu, default)
+        self._prev[key] = v
+        self.log.append(("randint", v))
+        return v
+
+
+def check_rand_vars_starved(acc):
+    from mathy_core import problems as P
+
+    for n, excl in ((23, ["x"]), (12, list("abcdfghjklmn")), (3, ["x", "y"]), (20, ["a", "b", "c", "d"])):
+        def execute(prefix):
+            orc = Stutter(prefix, "first")
+            CH.install(P)
+            got = None
+            try:
+                with CH.owned(orc):
+                    got = P.get_rand_vars(n, list(excl))
+            except CH.Divergence:
+                raise
+            except Exception:  # noqa - tolerated under starvation
+                pass
+            acc.count("executions")
+            acc.count("rand_vars_executions")
+            if got is not None:
+                case = {"kind": "rand_vars_starved", "n": n, "excl": excl, "choices": [t[2] for t in orc.trace]}
+                if len(got) != n or len(set(got)) != len(got):
+                    acc.violation("get_rand_vars-not-distinct|starved", case, f"{got}")
+                if set(got) & set(excl):
+                    acc.violation("get_rand_vars-ignores-exclusion|starved", case, f"{sorted(set(got) & set(excl))} returned although excluded")
+            return orc
+
+        CH.explore(execute, 1, 3000)
+
+
 def check_rand_vars(acc, bound):
     """requested variable sets are distinct and respect exclusions"""
     from mathy_core import problems as P
@@ -265,6 +310,7 @@ def _work(task):
         explore_setting(acc, gen, kwargs, promise, pretty, policy, bound, cap)
     elif kind == "vars":
         check_rand_vars(acc, task[1])
+        check_rand_vars_starved(acc)
         check_split(acc)
     else:
         conformance(acc, task[1])
@@ -347,7 +393,9 @@ def _replay_direct(case):
         conformance(a, [case["seed"]])
         return [(c, e["examples"][0]["detail"]) for c, e in a.viol.items()]
     a = Acc()
-    if k == "rand_vars":
+    if k == "rand_vars_starved":
+        check_rand_vars_starved(a)
+    elif k == "rand_vars":
         check_rand_vars(a, 2)
     else:
         check_split(a)
